@@ -12,6 +12,9 @@ import time
 
 VERIF = os.path.dirname(os.path.dirname(os.path.abspath(__file__)))
 PY = "/venv/bin/python"
+# the tree the change is applied to while our checks run (default: /repo itself, as the protocol asks; a scratch worktree of
+# /repo may be given to evaluate seeds in parallel with other work — the recorded run is repeated on /repo at the end)
+TARGET = os.environ.get("SEED_REPO", "/repo")
 
 
 def sh(cmd, cwd=None, env=None, timeout=3600):
@@ -56,30 +59,30 @@ def main():
     # 2. run our checks against it
     results = {}
     if confirmed:
-        rc, o = sh(["git", "-C", "/repo", "status", "--porcelain"])
-        assert o.strip() == "", "/repo is not clean: " + o
-        rc, o = sh(["git", "-C", "/repo", "apply", os.path.join(out, "patch.diff")])
+        rc, o = sh(["git", "-C", TARGET, "status", "--porcelain"])
+        assert o.strip() == "", TARGET + " is not clean: " + o
+        rc, o = sh(["git", "-C", TARGET, "apply", os.path.join(out, "patch.diff")])
         assert rc == 0, o
         try:
             for prop in [pid] + also:
                 for tier in ("quick", "thorough"):
                     t0 = time.time()
-                    rc, o = sh([os.path.join(VERIF, "check"), prop, "--tier", tier], cwd=VERIF, env={"VERIF_SEED": "0"}, timeout=7200)
+                    rc, o = sh([os.path.join(VERIF, "check"), prop, "--tier", tier], cwd=VERIF, env={"VERIF_SEED": "0", "AOVERIF_REPO": TARGET}, timeout=7200)
                     vio = [l for l in o.splitlines() if l.startswith("VIOLATION") or l.startswith("  failing input") or l.startswith("  no longer")]
                     results["%s:%s" % (prop, tier)] = {"exit": rc, "wall_s": round(time.time() - t0, 1), "lines": vio[:6]}
                     if rc == 1 or prop != pid:
                         break
         finally:
-            sh(["git", "-C", "/repo", "checkout", "--", "."])
-            sh(["git", "-C", "/repo", "clean", "-fdq", "aotools"])
+            sh(["git", "-C", TARGET, "checkout", "--", "."])
+            sh(["git", "-C", TARGET, "clean", "-fdq", "aotools"])
         # leave the evidence / Gen files as the unchanged tree produces them
         for prop in [pid] + also:
-            sh([os.path.join(VERIF, "check"), prop, "--tier", "quick"], cwd=VERIF, env={"VERIF_SEED": "0"}, timeout=7200)
+            sh([os.path.join(VERIF, "check"), prop, "--tier", "quick"], cwd=VERIF, env={"VERIF_SEED": "0", "AOVERIF_REPO": TARGET}, timeout=7200)
     caught = any(r["exit"] == 1 for k, r in results.items() if k.startswith(pid + ":"))
     concrete = any(r["exit"] == 1 and not any("no-failing-input-found" in l for l in r["lines"]) for k, r in results.items()
                    if k.startswith(pid + ":"))
     meta.update({"written_by": "independent sub-agent given only the property text and a scratch worktree",
-                 "what_i_ran": ran, "check_results": results, "caught_by_target_check": caught,
+                 "what_i_ran": ran, "check_results": results, "checks_ran_against": TARGET, "caught_by_target_check": caught,
                  "caught_with_concrete_input": concrete})
     json.dump(meta, open(os.path.join(out, "meta.json"), "w"), indent=1)
     print(json.dumps({"id": "%s-%s" % (pid, x), "confirmed": ran["confirmed"], "caught": caught, "concrete": concrete,
